@@ -176,7 +176,13 @@ def invalidate_attrs(
         if invalidatee == attr or (_seen is not None and invalidatee in seen):
             continue
         try:
-            delattr(obj, invalidatee)
+            # The mutation that triggered this invalidation has already been
+            # authorised (e.g. it was made on a private copy of a frozen
+            # instance), and so the invalidation it entails is too.
+            if hasattr(obj.__delattr__, "__raw__"):
+                obj.__delattr__(invalidatee, force=True)
+            else:
+                delattr(obj, invalidatee)
         except AttributeError:
             # Nothing is stored for `invalidatee` (e.g. a property that is not
             # cached), so deleting it did not cascade to *its* dependants,
